@@ -424,4 +424,58 @@ func (node *topicNode) addClients(ans map[string]byte)
   invariant[1] domOf(node.clients) == old(domOf(node.clients)) && valsOf(node.clients) == old(valsOf(node.clients)) && unchanged$1
   invariant[1] forall c string :: (c in node.clients) && pos$1[c] < idx$1 ==> (c in ans) && ans[c] == (old(c in ans) ? max(old(ans[c]), node.clients[c]) : node.clients[c])
   invariant[1] forall c string :: !((c in node.clients) && pos$1[c] < idx$1) ==> ((c in ans) <==> old(c in ans)) && ans[c] == old(ans[c])
+
+// ---- C16: a session restored from storage is wired like a new one ----
+// every later change of a session reaches storage through its storeCh (Session.store sends on it): a restored
+// session must get the manager's channel, broker and fresh bookkeeping, exactly as Session.init gives a new one
+func (s *Session) decode(str string) (err error)
+  trusted
+  requires s != nil && s.info != nil
+  modifies s.info.EGName, s.info.Name, s.info.Topics, s.info.ClientID, s.info.CleanFlag
+func (sm *SessionManager) newSessionFromYaml(str *string) (sess *Session)
+  flag allocates
+  requires sm != nil && str != nil
+  ensures a-restored-session-is-wired-like-a-new-one: sess != nil ==> fresh(sess) && sess.broker == sm.broker && sess.storeCh == sm.storeCh && sess.info != nil && fresh(sess.info) && sess.pending != nil && fresh(sess.pending) && len(sess.pendingQueue) == 0
+func (s *Session) init(sm *SessionManager, b *Broker, connect *packets.ConnectPacket) (err error)
+  flag allocates
+  requires s != nil && sm != nil && b != nil && connect != nil
+  modifies s.broker, s.storeCh, s.done, s.pending, s.pendingQueue, s.info
+  ensures a-new-session-is-wired-to-its-manager: err == nil && s.broker == b && s.storeCh == sm.storeCh && s.info != nil && fresh(s.info) && s.pending != nil && fresh(s.pending) && len(s.pendingQueue) == 0
+  ensures and-records-the-connect: s.info.ClientID == connect.ClientIdentifier && s.info.CleanFlag == connect.CleanSession && s.info.Topics != nil && s.info.EGName == b.egName && s.info.Name == b.name
+
+// ---- C14: the memo of topic splits is keyed by the topic text itself ----
+// insert / remove / findSubscribers all get their levels through this function: a hit must be the split of THIS
+// topic, so the cache may only be looked up and filled under the topic string (compared as Go compares interface
+// values: dynamic type string, equal text) - not under anything several topics can share - and what is stored is
+// the split that was just computed from this topic; an invalid topic is rejected whatever the cache holds for others
+ghost var gLvKeyTyp int
+ghost var gLvKeyVal int
+ghost var gLvSplit int      // the levels splitTopic returned in this call
+ghost var gLvMiss bool      // splitTopic was called
+ghost var gLvSplitOK bool
+ghost var gLvAdds int
+ghost var gLvAddTyp int
+ghost var gLvAddVal int
+ghost var gLvAddValTyp int
+func (t *topicLevelManager) get(topic string) (levels []string, err error)
+  flag allocates
+  requires t != nil && t.data != nil
+  requires the-memo-holds-level-lists-only: forall k int :: arcAdded[ref(t.data)][typeTag("string")][k] ==> arcTyp[ref(t.data)][typeTag("string")][k] == typeTag("[]string")
+  modifies gLvKeyTyp, gLvKeyVal, gLvSplit, gLvMiss, gLvSplitOK, gLvAdds, gLvAddTyp, gLvAddVal, gLvAddValTyp, arcAdded, arcTyp, arcVal
+  ensures looked-up-under-the-topic-text: gLvKeyTyp == typeTag("string") && gLvKeyVal == boxed("string", topic)
+  ensures a-miss-returns-the-split-of-this-topic-and-memoises-it-under-the-topic-text: gLvMiss ==> (err == nil <==> gLvSplitOK) && (err == nil ==> ref(levels) == gLvSplit && gLvAdds == 1 && gLvAddTyp == typeTag("string") && gLvAddVal == boxed("string", topic) && gLvAddValTyp == typeTag("[]string"))
+  ensures a-rejected-topic-memoises-nothing: err != nil ==> gLvAdds == 0 && arcAdded == old(arcAdded)
+  ensures a-hit-is-an-entry-under-this-text: !gLvMiss ==> err == nil && gLvAdds == 0 && old(arcAdded[ref(t.data)][typeTag("string")][boxed("string", topic)])
+  ensures the-memo-still-holds-level-lists-only: forall k int :: arcAdded[ref(t.data)][typeTag("string")][k] ==> arcTyp[ref(t.data)][typeTag("string")][k] == typeTag("[]string")
+  ghost at entry: gLvMiss := false
+  ghost at entry: gLvAdds := 0
+  ghost at call[1] Get: gLvKeyTyp := ifaceTyp(key)
+  ghost at call[1] Get: gLvKeyVal := ifaceVal(key)
+  ghost at call[1] splitTopic: gLvSplit := ref(levels)
+  ghost at call[1] splitTopic: gLvMiss := true
+  ghost at call[1] splitTopic: gLvSplitOK := ok
+  ghost at call[1] Add: gLvAdds := gLvAdds + 1
+  ghost at call[1] Add: gLvAddTyp := ifaceTyp(key)
+  ghost at call[1] Add: gLvAddVal := ifaceVal(key)
+  ghost at call[1] Add: gLvAddValTyp := ifaceTyp(value)
 @*/
